@@ -103,7 +103,8 @@ NoInventionP(told, lenOf(_), d) ==
 MsgsIn(d) == {<<d.blocks[i][1], d.blocks[i][2]>> : i \in 1..Len(d.blocks)}
 \* the same on content alone: whatever message contributes content contributes all of its blocks
 NoHoleP(told, lenOf(_), d) ==
-    \A m \in MsgsIn(d) \cap told : \A o \in 0..(lenOf(m) - 1) : \E i \in 1..Len(d.blocks) : d.blocks[i] = <<m[1], m[2], o>>
+    LET bs == {d.blocks[i] : i \in 1..Len(d.blocks)}
+    IN \A m \in {<<b[1], b[2]>> : b \in bs} \cap told : \A o \in 0..(lenOf(m) - 1) : <<m[1], m[2], o>> \in bs
 NoPartialP(told, nfrags(_), fed, d) ==
     \A m \in MsgsIn(d) \cap told : \A i \in 0..(nfrags(m) - 1) : <<m[1], m[2], i>> \in fed
 
